@@ -17,7 +17,7 @@ func init() {
 			"(idx-validated-before-use) Decoder.Decode allocates the name/crc/offset tables only after validateIdxV2Size succeeded and returns success only on the checksum-equal edge; readFanout and LazyIndex.init keep the " +
 			"fanout monotonicity rejection; LazyIndex.init accepts the file only on the pack-checksum-equal edge; mmap.loadIdxFile compares the tables implied by the object count with the mapping length before any lookup can slice it. " +
 			"(parallel-table-views) every composite literal that hands views of a bucket's Names, Offset32 and CRC32 tables to an iterator takes them all whole or all re-sliced, so one cursor indexes all of them. " +
-			"Not decided: equality of answers across implementations on all entry sets.",
+			"(key-successor-carries) no index reader builds a search bound by incrementing a byte of a key without a test for 0xff or a carry. Not decided: equality of answers across implementations on all entry sets.",
 		Assumptions: []string{},
 		Run:         runC10,
 	})
